@@ -274,7 +274,11 @@ func (x *explorer) do(w *world, seq ...*Request) {
 	keep := len(seq) > 1
 	for i, r := range seq {
 		rc := *r
-		for _, f := range w.exec(&rc, keep, x.st) {
+		fs := w.exec(&rc, keep, x.st)
+		if rc.got != nil {
+			r.Realized = rc.got
+		}
+		for _, f := range fs {
 			x.report(w, seq[:i+1], f)
 		}
 	}
@@ -312,21 +316,59 @@ func (x *explorer) report(w *world, seq []*Request, f finding) {
 		Text: specsString(w.specs) + " : " + strings.Join(txt, " ; ")})
 }
 
-// confirmFresh builds the state anew, runs the requests (published sends stay
-// published) and reports whether the signature shows up.
-func confirmFresh(simID int, specs []CoinSpec, reqs []*Request, sig string) bool {
+// runFresh builds the state anew and runs the requests (published sends stay
+// published). matched is false when a resynchronisation handed its answers to
+// the unconfirmed transactions in another assignment than the recorded one.
+func runFresh(simID int, specs []CoinSpec, reqs []*Request) (out [][]finding, matched bool) {
 	w := buildWorld(simID, specs)
 	defer w.close()
-	found := false
 	for _, r := range reqs {
 		rc := *r
-		for _, f := range w.exec(&rc, true, nil) {
-			if f.sig == sig {
-				found = true
-			}
+		fs := w.exec(&rc, true, nil)
+		if r.Realized != nil && !sameAssignment(r.Realized, rc.got) {
+			return nil, false
+		}
+		out = append(out, fs)
+	}
+	return out, true
+}
+
+func sameAssignment(a, b map[string]string) bool {
+	if len(a) != len(b) {
+		return false
+	}
+	for k, v := range a {
+		if b[k] != v {
+			return false
 		}
 	}
-	return found
+	return true
+}
+
+// maxAssignmentTries bounds the repetitions needed until the wallet's
+// rebroadcast order yields the recorded assignment of answers (at most 4
+// unconfirmed transactions: every try matches with probability >= 1/24).
+const maxAssignmentTries = 400
+
+// confirmFresh reports whether the signature shows up when the requests are
+// executed on a freshly built state.
+func confirmFresh(simID int, specs []CoinSpec, reqs []*Request, sig string) bool {
+	for try := 0; try < maxAssignmentTries; try++ {
+		out, matched := runFresh(simID, specs, reqs)
+		if !matched {
+			continue
+		}
+		for _, fs := range out {
+			for _, f := range fs {
+				if f.sig == sig {
+					return true
+				}
+			}
+		}
+		return false
+	}
+	ev.Fatal("could not reproduce the rebroadcast assignment of %v in %d tries", reqs, maxAssignmentTries)
+	return false
 }
 
 func (x *explorer) exploreState(specs []CoinSpec) {
@@ -558,17 +600,21 @@ func replay(args []string) {
 	}
 	fails := 0
 	for n := 0; n < times; n++ {
-		w := buildWorld(0, v.Replay.State)
-		for _, r := range v.Replay.Requests {
-			rc := *r
-			fs := w.exec(&rc, true, nil)
-			fmt.Printf("run %d: %s on %s: %d finding(s)\n", n+1, r, specsString(v.Replay.State), len(fs))
-			for _, f := range fs {
+		var out [][]finding
+		matched := false
+		for try := 0; try < maxAssignmentTries && !matched; try++ {
+			out, matched = runFresh(0, v.Replay.State, v.Replay.Requests)
+		}
+		if !matched {
+			ev.Fatal("could not reproduce the rebroadcast assignment")
+		}
+		for i, r := range v.Replay.Requests {
+			fmt.Printf("run %d: %s on %s: %d finding(s)\n", n+1, r, specsString(v.Replay.State), len(out[i]))
+			for _, f := range out[i] {
 				fmt.Printf("  FAIL %s: %s\n", f.sig, f.msg)
 				fails++
 			}
 		}
-		w.close()
 	}
 	ev.Cleanup()
 	if fails > 0 {
